@@ -20,7 +20,7 @@ RULE = ('cases = acyclic rule sets (1-4 rules, rule: references to lower rules) 
         'certainly cannot be evaluated: must deny. N = rule texts that are not sentences (lone quoted token, lone operator, '
         'unbalanced parenthesis), alone and referenced from other rules. D = a referenced rule removed from the living store (del / pop / same check trees under an enforcer that lacks it): the reference denies. F = a policy file overriding a registered policy with a list-of-lists rule. T = one target mapping kept by the caller and edited '
         'between calls (key deleted / value replaced): same decision as a fresh equal mapping. Non-trivial = the rule contains a left side that is not a plain '
-        'identifier path; distinct = distinct (rules, target, creds).')
+        'identifier path; distinct = distinct (rules, target, creds). Stratum `overlap`: two hostile requests on one enforcer at the same time (second one runs at sampled line boundaries of the first, deterministic scheduler): nothing undocumented escapes and each is decided as alone.')
 ASSUMPTIONS = ['roles in credentials are a list of strings (the statement\'s precondition)',
                'http:/https: kinds are excluded here: their transport errors are C16\'s subject',
                '% appears only inside well-formed %(name)s placeholders']
@@ -28,7 +28,7 @@ LEVEL_TEXT = ('Seeded hostile fuzzing with an exception-surface oracle; the inpu
               'fragment-based generator plus a curated alphabet is the appropriate level (no finite enumeration exists).')
 LEVEL_NOTE = 'trusted: the list of documented exceptions taken from the statement; the curated "certainly unevaluable" list'
 PLAN = {'quick': dict(shards=4, wall=60), 'thorough': dict(shards=16, wall=400)}
-MIN = {'deleted_reference_decisions': 100, 'file_override_enforce_calls': 100, 'same_target_comparisons': 500, 'evaluations': 5000, 'enforce_calls': 10000, 'hostile_leaves': 5000, 'unevaluable_leaf_rules': 500}
+MIN = {'overlapping_evaluations': 200, 'deleted_reference_decisions': 100, 'file_override_enforce_calls': 100, 'same_target_comparisons': 500, 'evaluations': 5000, 'enforce_calls': 10000, 'hostile_leaves': 5000, 'unevaluable_leaf_rules': 500}
 ANCHORS = ['oslo_policy._checks:GenericCheck.__call__', 'oslo_policy._checks:GenericCheck._find_in_dict',
            'oslo_policy._checks:RoleCheck.__call__', 'oslo_policy.policy:Enforcer.enforce']
 REQUIRED_ANCHORS = ['oslo_policy.policy:Enforcer.enforce']
@@ -297,6 +297,37 @@ def check_case(ctx, real, case):
                     return
 
 
+OVERLAPS = {'quick': 10, 'thorough': 200}
+
+
+def check_overlap(ctx, real, case):
+    """Two requests with hostile rules, targets and credentials are evaluated on one enforcer at the same time: neither may
+    raise anything undocumented, and each is decided exactly as when it runs alone."""
+    from pv.mon import overlap
+    policy, enf = real
+    rules = dict(('a.' + k, v) for k, v in case['a']['rules'].items())
+    rules.update(('b.' + k, v) for k, v in case['b']['rules'].items())
+    try:
+        enf.set_rules(policy.Rules.from_dict(rules))
+    except Exception as e:
+        ctx.violation('load-raises', case, {'rules': rules, 'observed': type(e).__name__ + ': ' + str(e)[:100]})
+        return
+    calls = []
+    for tag in 'ab':
+        sub = case[tag]
+        name = tag + '.' + sorted(sub['rules'])[0]
+        calls.append((name, sub['target'], sub['creds'], {'do_raise': bool(sub['do_raise'])}))
+    ctx.case(['overlap', rules, calls[0][1:3], calls[1][1:3]], True, 'overlap')
+    detail = {'rules': rules, 'request_a': list(calls[0][:3]), 'request_b': list(calls[1][:3])}
+    ok = overlap.enforce_pair(ctx, enf, calls[0], enf, calls[1], case, detail, ctx.sub_rnd('Ob', case['rseed']))
+    if ok:
+        for call in calls:
+            o = overlap.outcome(lambda: enf.enforce(call[0], copy.deepcopy(call[1]), copy.deepcopy(call[2]), **call[3]))
+            ctx.count('enforce_calls')
+            if o[0] == 'raised' and o[1] not in DOCUMENTED:
+                ctx.violation('undocumented-exception-' + o[1], case, dict(detail, observed=o))
+
+
 def run(ctx):
     from oslo_policy import policy
     enf = policy.Enforcer(env.fresh_conf(), use_conf=False)
@@ -309,9 +340,27 @@ def run(ctx):
         if i % 5000 == 0:
             ctx.sample({'rules': case['rules'], 'target': case['target'], 'creds': case['creds']}, case['kind'])
     ctx.stratum('random', exhaustive=False)
+    # two overlapping requests, last (the line-level scheduler slows everything that runs after it is installed)
+    from pv.mon import sched
+    ctx.stratum('overlap', exhaustive=False)
+    try:
+        for i in range(OVERLAPS[ctx.tier]):
+            if ctx.expired():
+                break
+            r = ctx.sub_rnd('O', ctx.tier, ctx.shard, i)
+            subs = []
+            while len(subs) < 2:
+                c = gen_case(r)
+                if c['kind'] not in ('T', 'D', 'F'):
+                    subs.append(c)
+            check_overlap(ctx, (policy, enf), dict(kind='overlap', a=subs[0], b=subs[1], rseed='%s.%d.%d' % (ctx.tier, ctx.shard, i)))
+    finally:
+        sched.uninstall()
 
 
 def replay(ctx, case):
     from oslo_policy import policy
     enf = policy.Enforcer(env.fresh_conf(), use_conf=False)
+    if case.get('kind') == 'overlap':
+        return check_overlap(ctx, (policy, enf), case)
     check_case(ctx, (policy, enf), case)
